@@ -117,7 +117,7 @@ Definition opcode (o : op) : Z :=
   | OModifyAttribute => 14 | ODeleteAttribute => 15 | OActivate => 18 | ORevoke => 19 | ODestroy => 20
   | OQuery => 24 | ORekeyKeyPair => 29 | ODiscoverVersions => 30
   | OEncrypt => 31 | ODecrypt => 32 | OSign => 33 | OSignatureVerify => 34 | OMac => 35
-  | OSetAttribute => 43
+  | OSetAttribute => 49
   end.
 
 (* which code path of kmip_client.py serves the operation *)
